@@ -1278,6 +1278,14 @@ class Interp:
             self.eval(target.value, p)
             if not isinstance(target.slice, ast.Slice):
                 self.eval(target.slice, p)
+            # the container's content changes: a field that held an entry token no longer holds its entry value
+            cont = target.value
+            if isinstance(cont, ast.Attribute):
+                cb = self.eval(cont.value, p, record=False)
+                if isinstance(cb, Obj):
+                    p.heap.pop((cb.oid, cont.attr), None)
+            elif isinstance(cont, ast.Name) and cont.id in p.env and isinstance(p.env[cont.id][0], In):
+                p.env[cont.id] = (TOP, p.env[cont.id][1])
             bt = self.term(target.value, p)
             if bt:
                 p.pa.kill(lambda t, bt=bt: (bt + "[") in t)
@@ -1354,9 +1362,9 @@ class Interp:
             v = self.eval(a.value, p)
             tv = self.taint_of(a.value, p) if self.taint_mode else None
             for t in a.targets:
-                self.assign(t, v, p, a.value)
                 if self.taint_mode:
                     self.assign_taint(t, tv, p)
+                self.assign(t, v, p, a.value)
             return [(None, p)]
         if isinstance(a, ast.AnnAssign):
             if a.value is not None:
@@ -1373,9 +1381,9 @@ class Interp:
             ast.fix_missing_locations(binop)
             v = self.eval(binop, p)
             tv = tflat(self.taint_of(a.target, p)) | tflat(self.taint_of(a.value, p)) if self.taint_mode else None
-            self.assign(a.target, v, p)
             if self.taint_mode:
                 self.assign_taint(a.target, tv, p)
+            self.assign(a.target, v, p)
             return [(None, p)]
         if isinstance(a, ast.Return):
             v = self.eval(a.value, p) if a.value is not None else Const(None)
